@@ -65,7 +65,7 @@ def gen_cases(run, module, consts, name, simulate=None, depth=None, seed=None, w
     return cases
 
 
-def replay(run, cmd, cases, label, idle_timeout=20.0):
+def replay(run, cmd, cases, label, idle_timeout=8.0):
     """returns number of executed steps"""
     d = workdir("replay-" + label)
     path = os.path.join(d, "cases.ndjson")
@@ -80,6 +80,8 @@ def replay(run, cmd, cases, label, idle_timeout=20.0):
         st = r.get("status")
         if st == "ok":
             stats["ok"] += 1
+        elif st == "skipped":
+            stats["skipped"] = stats.get("skipped", 0) + 1
         elif st == "diverged":
             stats["diverged"] += 1
         else:
